@@ -926,7 +926,12 @@ func (pc *PartitionContext) allocate(result *objects.AllocationResult) *objects.
 			zap.String("nodeID", targetNodeID),
 			zap.String("appID", appID))
 
-		// attempt to deallocate
+		// attempt to deallocate, unless the node removal found the new allocation on the node and released it like all
+		// other allocations on the node: the RM has been told that it is gone, it must not be scheduled again
+		if alloc.IsAllocated() && !app.IsAllocationAssignedToApp(alloc) {
+			pc.unwindRemovedAppAllocation(result)
+			return nil
+		}
 		if alloc.IsAllocated() {
 			allocKey := alloc.GetAllocationKey()
 			if _, err := app.DeallocateAsk(allocKey); err != nil {
@@ -946,6 +951,16 @@ func (pc *PartitionContext) allocate(result *objects.AllocationResult) *objects.
 
 	// reservations were cancelled during the processing
 	pc.decReservationCount(result.CancelledReservations)
+
+	// The RM can release the allocation between the moment the application made it and now: the release removed it
+	// from the application, node and queue and discounted it. It must not be announced to the RM as a new allocation.
+	if (result.ResultType == objects.Allocated || result.ResultType == objects.AllocatedReserved) && !app.IsAllocationAssignedToApp(alloc) {
+		log.Log(log.SchedPartition).Info("Allocation was released while allocating",
+			zap.String("appID", appID),
+			zap.String("allocationKey", alloc.GetAllocationKey()))
+		pc.unwindRemovedAppAllocation(result)
+		return nil
+	}
 
 	// reservation
 	if result.ResultType == objects.Reserved {
